@@ -108,6 +108,12 @@ def run_case(acc, rnd, tier, case):
                           (k, type(rb.last_error).__name__), dict(wit, step=k))
             return
         if oa[0] == 'raise' and isinstance(ra.last_error, ContractError):
+            if not failing:
+                acc.violation('C09:spurious-contract-error', 'step %d: every condition of this chart holds, yet the checked run raised '
+                              '%s (%s) while the ignore_contract=True run went on' % (k, type(ra.last_error).__name__,
+                                                                                    str(getattr(ra.last_error, 'condition', ''))[:120]),
+                              dict(wit, step=k))
+                return
             acc.count('runs_cut_at_contract_error')
             break
         evals += sum(1 for e in la if e[0] == 'K')
